@@ -6,13 +6,19 @@ package blb_test
 // deterministic scheduler (pkg/verifcluster + zz_verif_c14_driver.go).
 
 import (
+	"bufio"
+	"encoding/json"
 	"flag"
 	"fmt"
 	"os"
+	"os/exec"
 	"path/filepath"
 	"runtime"
 	"sort"
+	"strconv"
+	"strings"
 	"testing"
+	"time"
 
 	"github.com/westerndigitalcorporation/blb/internal/core"
 	"github.com/westerndigitalcorporation/blb/internal/curator"
@@ -94,6 +100,12 @@ func c14Case(root *vw.Rng, ci int, tr *vw.Trace) {
 	fp := fmt.Sprintf("%v/%d/%d/%d/%d", shape, repl, d.Stats["commit.applied"], d.Stats["write.acked"], d.Stats["class-switched"])
 	if d.Stats["commit.applied"] > 0 && d.Stats["write.acked"] > 0 {
 		vw.Distinct(fp)
+		if os.Getenv("VERIF_CHUNK") != "" {
+			if f, err := os.OpenFile(filepath.Join(vw.OutDir(), "distinct.txt"), os.O_APPEND|os.O_CREATE|os.O_WRONLY, 0o644); err == nil {
+				fmt.Fprintln(f, strings.ReplaceAll(fp, " ", "_"))
+				f.Close()
+			}
+		}
 	}
 	if ci < 4 {
 		vw.Sample(fmt.Sprintf("case %d: shape=%v repl=%d servers=%d events=%d commits=%d switched=%d acked=%d", ci, shape, repl, nTS, len(d.Ops), d.Stats["commit.applied"], d.Stats["class-switched"], d.Stats["write.acked"]))
@@ -135,8 +147,12 @@ func c14Directed(root *vw.Rng, tr *vw.Trace, id string, which int) {
 		d.StepOne(vc.ModeDeliver, func(r *vc.RPC) bool { return r.Kind == vc.KWrite && r.TS == hs[1] })
 		// the packer cannot reach the first replica for the stat, stats the second one
 		d.StartRound()
-		d.StepOne(vc.ModeFail, func(r *vc.RPC) bool { return r.Kind == vc.KCtlStatTract && r.TS == hs[0] && d.BlobOf(r) == 0 && r.Tract == 0 })
-		d.DeliverWhere(func(r *vc.RPC) bool { return isPacker(r) && (r.Kind == vc.KCtlStatTract || r.Kind == vc.KC14Alloc || r.Kind == vc.KPackTracts) })
+		d.StepOne(vc.ModeFail, func(r *vc.RPC) bool {
+			return r.Kind == vc.KCtlStatTract && r.TS == hs[0] && d.BlobOf(r) == 0 && r.Tract == 0
+		})
+		d.DeliverWhere(func(r *vc.RPC) bool {
+			return isPacker(r) && (r.Kind == vc.KCtlStatTract || r.Kind == vc.KC14Alloc || r.Kind == vc.KPackTracts)
+		})
 		// PackTracts has read the first replica; now the write reaches it and is acknowledged
 		d.DeliverWhere(isClient)
 		d.DeliverWhere(isPacker)
@@ -194,22 +210,145 @@ func TestVerifC14(t *testing.T) {
 	tr := vw.OpenTrace("C14.trace")
 	defer tr.Close()
 	defer vw.Finish("C14")
+	// Wall-clock budget of the harness itself: when it runs out the remaining cases are skipped (recorded as
+	// stat "budget.cases-skipped") and the test ends normally.  A slow machine must never turn into a go-test
+	// timeout panic, which the checker could take for a crash of the code under test.
+	deadline := time.Now().Add(time.Duration(vw.Scale(200, 780)) * time.Second)
+	if s := os.Getenv("VERIF_C14_DEADLINE"); s != "" {
+		if v, err := strconv.ParseInt(s, 10, 64); err == nil {
+			deadline = time.Unix(v, 0)
+		}
+	}
+	n := vw.Scale(30, c14ThoroughCases)
+	if c := os.Getenv("VERIF_CHUNK"); c != "" {
+		// child process of a thorough run: one batch of random cases (the Stores and raft nodes of finished
+		// cases leave idle goroutines behind, which slow every quiescence scan: long runs are cut into processes)
+		k, _ := strconv.Atoi(c)
+		lo, hi := k*c14Chunk, (k+1)*c14Chunk
+		if hi > n {
+			hi = n
+		}
+		for ci := lo; ci < hi; ci++ {
+			if !vw.CaseSelected(fmt.Sprint(ci)) {
+				continue
+			}
+			if time.Now().After(deadline) {
+				vw.Stat("budget.cases-skipped", 1)
+				continue
+			}
+			c14Case(root, ci, tr)
+		}
+		return
+	}
 	for _, w := range []int{6, 13, 14, 1, 2} {
 		if id := fmt.Sprintf("f%d", w); vw.CaseSelected(id) {
 			c14Directed(root, tr, id, w)
 		}
 	}
-	for ci := 0; ci < vw.Scale(150, 3000); ci++ {
+	for ci := 0; ci < vw.Scale(150, 1500); ci++ {
 		if vw.CaseSelected(fmt.Sprintf("s%d", ci)) {
+			if time.Now().After(deadline) {
+				vw.Stat("budget.cases-skipped", 1)
+				continue
+			}
 			c14Scripted(root, ci, tr)
 		}
 	}
-	n := vw.Scale(30, 400)
+	if vw.Thorough() && os.Getenv("VERIF_CASES") == "" {
+		c14Parent(t, tr, n, deadline)
+		return
+	}
 	for ci := 0; ci < n; ci++ {
 		if !vw.CaseSelected(fmt.Sprint(ci)) {
 			continue
 		}
+		if time.Now().After(deadline) {
+			vw.Stat("budget.cases-skipped", 1)
+			continue
+		}
 		c14Case(root, ci, tr)
+	}
+}
+
+const (
+	c14ThoroughCases = 240
+	c14Chunk         = 20
+)
+
+// c14Parent runs the random cases of a thorough run in child processes and merges their output.
+func c14Parent(t *testing.T, tr *vw.Trace, n int, deadline time.Time) {
+	for k := 0; k*c14Chunk < n; k++ {
+		if time.Until(deadline) < 20*time.Second {
+			vw.Stat("budget.cases-skipped", int64(n-k*c14Chunk))
+			break
+		}
+		sub := filepath.Join(vw.OutDir(), fmt.Sprintf("chunk%d", k))
+		os.MkdirAll(sub, 0o755)
+		// the child stops starting cases at the deadline; its own go-test timeout is only a last resort
+		left := int(time.Until(deadline).Seconds()) + 120
+		cmd := exec.Command(os.Args[0], "-test.run=TestVerifC14$", fmt.Sprintf("-test.timeout=%ds", left))
+		cmd.Env = append(os.Environ(), "VERIF_CHUNK="+fmt.Sprint(k), "VERIF_OUT="+sub, fmt.Sprintf("VERIF_C14_DEADLINE=%d", deadline.Unix()))
+		out, err := cmd.CombinedOutput()
+		if err != nil {
+			txt := string(out)
+			if strings.Contains(txt, "test timed out") {
+				// the harness ran out of time: a broken check, never an observation about the code under test
+				t.Fatalf("HARNESS-TIMEOUT chunk %d: the batch did not finish within the harness budget (machine too slow or too many cases); this says nothing about the property", k)
+			}
+			t.Fatalf("chunk %d failed: %v\n%s", k, err, txt)
+		}
+		f, err := os.Open(filepath.Join(sub, "C14.trace"))
+		if err != nil {
+			t.Fatalf("chunk %d: %v", k, err)
+		}
+		sc := bufio.NewScanner(f)
+		sc.Buffer(make([]byte, 1<<20), 1<<26)
+		for sc.Scan() {
+			line := sc.Text()
+			if strings.HasPrefix(line, "# case ") {
+				tr.Case(strings.Fields(line)[2])
+				continue
+			}
+			if len(line) == 0 {
+				continue
+			}
+			var xs []int64
+			for _, w := range strings.Fields(line[1:]) {
+				v, _ := strconv.ParseInt(w, 10, 64)
+				xs = append(xs, v)
+			}
+			if line[0] == '>' {
+				tr.Op(xs...)
+			} else if line[0] == '<' {
+				tr.Obs(xs...)
+			}
+		}
+		f.Close()
+		var res struct {
+			Stats      map[string]int64 `json:"stats"`
+			Samples    []string         `json:"samples"`
+			Violations []vw.Violation   `json:"violations"`
+		}
+		if b, err := os.ReadFile(filepath.Join(sub, "C14.result.json")); err == nil && json.Unmarshal(b, &res) == nil {
+			for k2, v := range res.Stats {
+				vw.Stat(k2, v)
+			}
+			for _, s := range res.Samples {
+				vw.Sample(s)
+			}
+			for _, v := range res.Violations {
+				vw.Report(v)
+			}
+		} else {
+			t.Fatalf("chunk %d wrote no result file", k)
+		}
+		if b, err := os.ReadFile(filepath.Join(sub, "distinct.txt")); err == nil {
+			for _, fp := range strings.Fields(string(b)) {
+				vw.Distinct(fp)
+			}
+		}
+		os.RemoveAll(filepath.Join(sub, "glog"))
+		os.Remove(filepath.Join(sub, "C14.trace"))
 	}
 }
 
@@ -295,8 +434,12 @@ func c14Scripted(root *vw.Rng, ci int, tr *vw.Trace) {
 	rsPart := core.PartitionID(core.RSPartition<<30) | 1
 	s := &curator.VerifC14Scripted{
 		Stat: func(ts int, id core.TractID, version int) core.StatTractReply { return stat[key{ts, int(id.Index)}] },
-		SetV: func(ts int, id core.TractID, version int, stamp uint64) core.Error { return setv[key{ts, int(id.Index)}] },
-		Pack: func(ts int, chunk core.RSChunkID, specs []core.PackTractSpec) core.Error { return packErr[int(chunk.ID)] },
+		SetV: func(ts int, id core.TractID, version int, stamp uint64) core.Error {
+			return setv[key{ts, int(id.Index)}]
+		},
+		Pack: func(ts int, chunk core.RSChunkID, specs []core.PackTractSpec) core.Error {
+			return packErr[int(chunk.ID)]
+		},
 		Encode: func(ts int, chunk core.RSChunkID) core.Error { return encErr },
 		AllocTS: func(n int) ([]string, []core.TractserverID) {
 			if allocTSFail {
@@ -316,7 +459,9 @@ func c14Scripted(root *vw.Rng, ci int, tr *vw.Trace) {
 			}
 			return core.RSChunkID{Partition: rsPart, ID: 1}, core.NoError
 		},
-		Commit: func(id core.RSChunkID, hosts []core.TractserverID, data [][]state.EncodedTract) core.Error { return commitErr },
+		Commit: func(id core.RSChunkID, hosts []core.TractserverID, data [][]state.EncodedTract) core.Error {
+			return commitErr
+		},
 	}
 	committed, chunks := curator.VerifC14RunScripted(s, core.StorageClassRS_6_3, vc.C14Target, adds)
 
